@@ -30,6 +30,10 @@ Op == /\ Is("Op") /\ l' = l + 1 /\ UNCHANGED <<n, stored, feats, target>>
 Shuffled == /\ Is("Shuffled") /\ l' = l + 1 /\ UNCHANGED <<n, stored, feats, target, flag, perm>>
             /\ flag[Ev.f + 1] = "shuffle"
             /\ Ev.out = [i \in DOMAIN Ev.samples |-> perm[Ev.f + 1][Ev.samples[i] + 1]]
+\* shuffled(f, samples) of a feature that is not shuffled: as many samples as given, all valid (nothing more is demanded)
+Unshuffled == /\ Is("Unshuffled") /\ l' = l + 1 /\ UNCHANGED <<n, stored, feats, target, flag, perm>>
+              /\ flag[Ev.f + 1] # "shuffle"
+              /\ Len(Ev.out) = Len(Ev.samples) /\ \A i \in DOMAIN Ev.out : Ev.out[i] \in 0..(n - 1)
 \* all views for a list of samples (any order, repetitions): dense rows and per-feature values
 Views == /\ Is("Views") /\ l' = l + 1 /\ UNCHANGED <<n, stored, feats, target, flag, perm>>
          /\ \A i \in DOMAIN Ev.samples : Ev.samples[i] \in 0..(n - 1)
@@ -58,7 +62,7 @@ Iter == /\ Is("Iter") /\ l' = l + 1 /\ UNCHANGED <<n, stored, feats, target, fla
         /\ Ev.visits1 = [g \in DOMAIN feats |-> 1] /\ Ev.via1 = [g \in DOMAIN feats |-> KindOf(feats[g])]
         /\ Ev.visitsN = Ev.listedN /\ Len(Ev.visitsN) = Len(feats)
         /\ Ev.valuesOK /\ Ev.workerOK /\ Ev.indexOK
-Next == Reset \/ Op \/ Shuffled \/ Views \/ Targets \/ Bad \/ Iter
+Next == Reset \/ Op \/ Shuffled \/ Unshuffled \/ Views \/ Targets \/ Bad \/ Iter
 Spec == Init /\ [][Next]_vars
 Accepted == LET d == TLCGet("stats").diameter IN
             IF d - 1 = Len(TraceLog) THEN TRUE ELSE PrintT(<<"REJECTED_AT", d>>) /\ FALSE
